@@ -26,6 +26,8 @@ func main() {
 		{Name: "rb-beyond-3pg-3ops-exhaustive", Cfg: "MC_DBFile_rb_beyond.cfg", Timeout: 10 * time.Minute, MaxKeep: core.Pick(args, 500, 0)},
 		{Name: "rb-drop-recreate-3pg-4ops-exhaustive", Cfg: "MC_DBFile_drop.cfg", Timeout: 10 * time.Minute, MaxKeep: core.Pick(args, 300, 0)},
 		{Name: "rb-block-edges-3pg-3ops", Cfg: "MC_DBFile_rb_L3.cfg", Timeout: 10 * time.Minute, MaxKeep: core.Pick(args, 300, 0), Layouts: []sim.Layout{sim.L3(512), sim.L2(512)}},
+		{Name: "leaving-wal-mode-2pg-4ops", Cfg: "MC_DBFile_modeswitch4.cfg", Timeout: 10 * time.Minute, MaxKeep: 0, Need: "JRmWal", AllCfgs: true},
+		{Name: "leaving-wal-mode-twice-2pg-5ops", Cfg: "MC_DBFile_modeswitch.cfg", Timeout: 10 * time.Minute, MaxKeep: 0, Needs: []string{"JRmWal*2", "WEnd"}, AllCfgs: true},
 		{Name: "journal-mode-switches-2pg-5ops", Cfg: "MC_DBFile_modeswitch.cfg", Timeout: 10 * time.Minute, MaxKeep: core.Pick(args, 500, 6000)},
 		{Name: "rb-free-page-reuse-3pg-3ops", Cfg: "MC_DBFile_rb_free.cfg", Timeout: 10 * time.Minute, MaxKeep: core.Pick(args, 400, 0)},
 		{Name: "lock-page-layout-4pg", Cfg: "MC_DBFile_lock_rb.cfg", Timeout: 10 * time.Minute, MaxKeep: core.Pick(args, 3, 48), Layouts: []sim.Layout{sim.L4()}, Workers: 3, MinNs: 4},
